@@ -359,3 +359,26 @@ def wrap_container(rng, e: dict) -> dict:
     if r < 0.6:
         return {"k": "tuple", "items": [V(0), e]}
     return e
+
+
+def shared_expr_program(rng) -> dict:
+    """A parent whose result uses one call x several times: as an operand next to a slower sibling, as
+    condition AND branch of a cond, inside containers.  Equal expressions under one parent share one
+    evaluation (and its promise), so later uses register on a promise that may be notifying."""
+    k = rng.randint(0, 3)
+    x = call(rng.choice(["inc", "twice", "ainc", "ident"]), V(k))
+    slow = call(rng.choice(["deep", "twice", "aslow"]), V(rng.randint(1, 3)))
+    uses = [
+        lambda: call("add", x, slow),
+        lambda: {"k": "op", "op": "add", "args": [x, slow]},
+        lambda: {"k": "cond", "clauses": [[x, x]], "else": V(0)},
+        lambda: {"k": "cond", "clauses": [[{"k": "op", "op": "lt", "args": [x, V(2)]}, x]], "else": x},
+        lambda: {"k": "list", "items": [x, x]},
+        lambda: call("add", x, x),
+        lambda: call("sumall", {"k": "seq", "items": [x, slow, x]}),
+        lambda: {"k": "catch", "body": x, "handlers": [[["ValueError"], "recover"]]},
+        lambda: call("inc", x),
+    ]
+    n = rng.randint(2, 4)
+    items = [rng.choice(uses)() for _ in range(n)]
+    return {"k": rng.choice(["list", "tuple"]), "items": items}
